@@ -6,13 +6,13 @@ import Splipy.Lemmas.C18NumberingB
 
 set_option linter.unusedSectionVars false
 
-namespace Splipy.MP
+namespace Splipy.MP.C18L
 
 variable {α : Type} [Inhabited α]
 
 /-- the arrays have the shapes of the plans and are well formed -/
 def Shaped (plans : List PatchPlan) (A : Array (NdArr α)) : Prop :=
-  ∀ (k : ℕ) (p : PatchPlan), plans[k]? = some p → (A.getD k default).shape = p.shape ∧ (A.getD k default).WF
+  ∀ (k : ℕ) (p : PatchPlan), plans[k]? = some p → (A.getD k default).shape = p.shape ∧ (A.getD k default).SizeOK
 
 /-- every face that is read views the array of an EARLIER top node (ownership goes to the patch
     that was added first) -/
@@ -79,4 +79,4 @@ theorem runFrom_spec (plans : List PatchPlan) (hord : WellOrdered plans) :
         rw [s1 k hk] at this
         exact this
 
-end Splipy.MP
+end Splipy.MP.C18L
